@@ -22,6 +22,7 @@ macro_rules! dispatch {
             "C15" => $f(&checks::c01::C01 { cost: true } $(, $arg)*),
             "C13" => $f(&checks::c13::C13 $(, $arg)*),
             "C05" => $f(&checks::c05::C05 $(, $arg)*),
+            "C04" => $f(&checks::c04::C04 $(, $arg)*),
             _ => {
                 eprintln!("unknown or not-applicable property {}", $id);
                 std::process::exit(2)
@@ -42,6 +43,9 @@ fn do_selfcheck<C: Check>(c: &C, n: u64) -> i32 {
 
 fn main() {
     driver::install_quiet_panic_hook();
+    if std::env::var_os("VERIF_TRACE").is_some() {
+        lockstep::TRACE.store(true, std::sync::atomic::Ordering::Relaxed);
+    }
     let args: Vec<String> = std::env::args().collect();
     if args.len() < 3 {
         usage();
